@@ -448,6 +448,33 @@ def apply_rewrites(src, mask, it, ed, stats, spec_entry):
         if any(x <= lo + m.start() and lo + m.end() <= y + 1 for x, y in r4_ranges): continue
         ed.replace(lo + m.start(), lo + m.end(), 'crate::spec::f32_%s()' % {'MAX': 'max_value', 'MIN': 'min_value', 'INFINITY': 'infinity', 'NEG_INFINITY': 'neg_infinity', 'EPSILON': 'epsilon', 'NAN': 'nan'}[m.group(1)])
         stats['R7_cast_f32'] = stats.get('R7_cast_f32', 0) + 1
+    # R11: `V[N].to_string()` (an element of a local vector, printed through its Display impl) => `to_string_w(&V[N])`: a wrapper whose body is
+    #      the original call; its result is a deterministic, otherwise uninterpreted, function of the value (`str_of`).  vstd's own contract of
+    #      ToString::to_string says nothing about the result, so two printed forms could not even be compared.
+    for m in re.finditer(r'\]\.to_string\(\)', body):
+        pc = lo + m.start()          # the closing bracket of an index expression
+        if mask[pc] != ord('c'): continue
+        i = pc; d = 0
+        while i > lo:
+            if mask[i] == ord('c'):
+                if src[i] in ')]': d += 1
+                elif src[i] in '([':
+                    d -= 1
+                    if d == 0: break
+            i -= 1
+        j = i - 1
+        while j > lo and (src[j].isalnum() or src[j] in '_.'): j -= 1
+        recv = src[j + 1:pc + 1]
+        if not re.match(r'[A-Za-z_][\w.]*\[', recv): continue
+        ed.replace(j + 1, lo + m.end(), 'crate::spec::to_string_w(&%s)' % recv)
+        stats['R11_to_string'] = stats.get('R11_to_string', 0) + 1
+    # ... and a bare parameter of reference type: `P.to_string()` => `to_string_w(P)`
+    sig11 = src[it['kw']:it['body_start']]
+    for pm in re.finditer(r'\b([a-z_]\w*)\s*:\s*&\s*(?:\'\w+\s+)?([A-Z]\w*)\b', sig11):
+        for m in re.finditer(r'(?<![\w.\]])%s\.to_string\(\)' % re.escape(pm.group(1)), body):
+            if mask[lo + m.start()] != ord('c'): continue
+            ed.replace(lo + m.start(), lo + m.end(), 'crate::spec::to_string_w(%s)' % pm.group(1))
+            stats['R11_to_string'] = stats.get('R11_to_string', 0) + 1
     # R5b: `for &x in E { B }` => `for x in E { let x = *x; B }` (reference pattern on a Copy element)
     for L in loops:
         if L['kind'] != 'for': continue
@@ -580,7 +607,7 @@ def r9_desugar_iterators(srcs, stats):
     """R9: the slice-iterator adapters Verus cannot translate are replaced by the loops they stand for (std's documented semantics of
     enumerate / fold / filter+count / position / for_each on a slice iterator; E is a place expression made of identifiers and field
     accesses, closures are single expressions over their parameters).  Every replacement stays on the lines of the original text.
-      a  for (I, X) in E.iter().enumerate() {      =>  for I in 0..E.len() { let X = &E[I];
+      a  for (I, X) in E.iter().enumerate() {      =>  for I in 0..E.len() { let X = &E[I];        (with .rev(): &E[E.len() - 1 - I])
       b  E.iter().fold(INIT, |A, X| BODY)          =>  ({ let mut A = INIT; for X in E.iter() { A = BODY; } A })
       d  E.iter().filter(|&N| COND).count()        =>  ({ let mut r9_c: usize = 0; for N in E.iter() { if COND { r9_c += 1; } } r9_c })
       e  E.iter_mut().for_each(|X| *X OP= RHS)     =>  for r9_k in 0..E.len() { E[r9_k] OP= RHS; }          (statement position)
@@ -603,6 +630,12 @@ def r9_desugar_iterators(srcs, stats):
             I, X, E = x.group(1), x.group(2), x.group(3)
             Iv = I if I != '_' else 'r9_i'
             edits.append((x.start(), x.end(), 'for %s in 0..%s.len() { let %s = &%s[%s];' % (Iv, E, X, E, Iv) + nl(x.start(), x.end()), 'R9a_enumerate'))
+        # a': enumerate over the reversed slice
+        for x in re.finditer(r'\bfor\s*\(\s*(\w+)\s*,\s*(\w+)\s*\)\s+in\s+' + PLACE + r'\.iter\(\)\.rev\(\)\.enumerate\(\)\s*\{', src):
+            if not live(x.start()): continue
+            I, X, E = x.group(1), x.group(2), x.group(3)
+            Iv = I if not I.startswith('_') else 'r9_i'
+            edits.append((x.start(), x.end(), 'for %s in 0..%s.len() { let %s = &%s[%s.len() - 1 - %s];' % (Iv, E, X, E, E, Iv) + nl(x.start(), x.end()), 'R9a_enumerate'))
         # b/d/f: expression forms
         for x in re.finditer(PLACE + r'\.iter\(\)\s*\.\s*(fold|filter|position)\s*\(', src):
             if not live(x.start()): continue
@@ -1138,6 +1171,7 @@ def _assemble(repo, spec, rows=None, canary=None, opts=None):
 HEADER = '''// GENERATED by /verif/tools/gen.py from /repo/src/push/*.rs -- do not edit.
 #![allow(unused_imports, unused_variables, unused_mut, dead_code, unused_assignments, unreachable_code, non_snake_case, unused_parens)]
 #![feature(allocator_api)]
+#![feature(sized_hierarchy)]
 use vstd::prelude::*;
 verus! {
 global size_of usize == 8;
